@@ -14,6 +14,7 @@ type hunk struct {
 type filePatch struct {
 	File  string
 	Hunks []hunk
+	New   bool // the diff creates the file
 }
 
 // parseUnifiedDiff reads a `git diff` output.
@@ -42,7 +43,11 @@ func parseUnifiedDiff(s string) ([]filePatch, error) {
 			f := strings.TrimPrefix(line, "+++ ")
 			f = strings.TrimPrefix(f, "b/")
 			cur.File = f
-		case strings.HasPrefix(line, "--- "), strings.HasPrefix(line, "index "), strings.HasPrefix(line, "new file"), strings.HasPrefix(line, "deleted file"), strings.HasPrefix(line, "similarity"), strings.HasPrefix(line, "rename "):
+		case strings.HasPrefix(line, "new file"):
+			if cur != nil {
+				cur.New = true
+			}
+		case strings.HasPrefix(line, "--- "), strings.HasPrefix(line, "index "), strings.HasPrefix(line, "deleted file"), strings.HasPrefix(line, "similarity"), strings.HasPrefix(line, "rename "):
 		case strings.HasPrefix(line, "@@"):
 			flush()
 			h = &hunk{}
